@@ -210,6 +210,20 @@ def pattern_worker(job):
         v = _pv(job, "unsupplied_junctions + out-of-service = %s, junctions without pressure = %s" % (sorted(uj | oos), sorted(without)))
         if (uj2 | oos) == without:
             v["fingerprint"] = "C18/pattern/flow_prescribing_edge"
+        elif "press_control" in net and len(net.press_control):
+            # ... or by the direction of pressure controllers?  The solver reaches junctions through a controller only from
+            # its inlet to its outlet and treats the controlled junction as a pressure source; the graph draws an edge.
+            pc = net.press_control[net.press_control.in_service & net.press_control.control_active]
+            mg3 = top.create_nxgraph(net, include_flow_controls=False, include_heat_consumers=False, include_press_controls=False)
+            base_sl = (set(net.junction.index) - set(top.unsupplied_junctions(net, mg=mg3)))
+            sl = set(net.ext_grid[net.ext_grid.in_service].junction.values)
+            for t_ in ("circ_pump_pressure", "circ_pump_mass"):
+                if t_ in net and len(net[t_]):
+                    sl |= set(net[t_][net[t_].in_service].flow_junction.values)
+            sl |= set(pc.controlled_junction.values)
+            uj3 = set(top.unsupplied_junctions(net, mg=mg3, slacks=sl))
+            if (uj3 | oos) == without:
+                v["fingerprint"] = "C18/pattern/directed_press_control"
         viol.append(v)
     if not ok and (uj | oos) != set(net.junction.index):
         # the solver refuses a net without supplied junction; the graph must agree that nothing is supplied
@@ -272,6 +286,27 @@ def pattern_bases():
                 e = E("pipe", f=e["f"], to=e["to"], index=9)
                 s["elems"][k] = e
         out.append(s)
+        if s["name"] == "w_pi_valve":
+            # pipe labels that are not table positions (the closed pipe valve must remove the edge of *its* pipe)
+            s3 = copy.deepcopy(s)
+            s3["name"] = "w_pi_valve_labels"
+            remap = {4: 7, 1: 0, 2: 3}
+            for e in s3["elems"]:
+                if e["t"] == "pipe":
+                    e["index"] = remap[e["index"]]
+                if e["t"] == "valve" and e.get("et") == "pi":
+                    e["el"] = remap[e["el"]]
+            out.append(s3)
+    # a temperature-only external grid is no pressure feeder
+    out.append({"name": "w_t_feeder", "fluid": "water", "nj": 4, "elems": [
+        E("ext_grid", j=0, index=0), E("ext_grid", j=2, type="t", index=1), E("pipe", f=0, to=1, index=0),
+        E("pipe", f=2, to=3, index=1), E("valve", j=1, el=2, et="ju", index=0), E("sink", j=1, index=0), E("sink", j=3, index=1)],
+        "flags": [("elem", 4, "opened"), ("elem", 0)]})
+    # junctions that hang on the inlet side of a pressure controller only (the solver follows controllers from -> to)
+    out.append({"name": "w_pc_upstream", "fluid": "water", "nj": 4, "elems": [
+        E("ext_grid", j=3, index=0), E("pipe", f=2, to=3, index=0), E("press_control", f=1, to=2, cj=2, index=0),
+        E("pipe", f=0, to=1, index=1), E("sink", j=0, index=0), E("source", j=1, index=0)],
+        "flags": [("elem", 3), ("elem", 2)]})
     return out
 
 
@@ -289,7 +324,12 @@ def jobs(tier, seed):
     for s in pattern_bases():
         k = len(s["flags"])
         allp = list(itertools.product([True, False], repeat=k))
-        pats = allp if tier == "thorough" else [allp[0], allp[-1]] + rng.sample(allp[1:-1], min(8, len(allp) - 2))
+        if tier == "thorough":
+            pats = allp
+        else:
+            single_off = [tuple(i != j for i in range(k)) for j in range(k)]
+            pats = [allp[0], allp[-1]] + single_off + rng.sample(allp[1:-1], min(6, len(allp) - 2))
+            pats = list(dict.fromkeys(pats))
         for bits in pats:
             out.append({"name": "pattern/%s/%s" % (s["name"], "".join("1" if b else "0" for b in bits)), "kind": "pattern",
                         "spec": s, "bits": list(bits)})
